@@ -304,8 +304,11 @@ def eof_table(spec):
     return 'static const int vp_eofret[] = {%s};' % ','.join(str(v) for v in exp)
 
 
-def e1_harness(g, cfg, spec, n, maxnul, nodefault=False, witness=None, check_post=True, source='buffer'):
-    """First-token step harness for input length n."""
+def e1_harness(g, cfg, spec, n, maxnul, nodefault=False, witness=None, check_post=True, source='buffer', interior=False):
+    """First-token step harness for input length n.  interior: restricted to the inputs on which the
+    match attempt of the first token jams inside the n bytes (the reference has no live rule after byte
+    n), so the end-of-buffer code is not entered; its back edges then get unwind bound 1 and the
+    unwinding assertions prove they are not taken."""
     H = [common_head(g, cfg, spec, max(n, 1), nodefault)]
     H.append(action_table(spec))
     H.append(eof_table(spec))
@@ -317,6 +320,7 @@ def e1_harness(g, cfg, spec, n, maxnul, nodefault=False, witness=None, check_pos
     H.append('#define VP_CHECK_POST %d' % (1 if (check_post and source == 'buffer') else 0))
     H.append('#define VP_SOURCE_%s 1' % source.upper())
     H.append('#define VP_ARRAY %d' % (1 if is_array(g) else 0))
+    H.append('#define VP_INTERIOR %d' % (1 if interior else 0))
     if witness:
         H.append('#define VP_WITNESS_RULE %d' % witness)
     H.append(r'''
@@ -349,6 +353,11 @@ int main(void) {
   int tot = 0;
   int rr = vp_first_token(vpi_in, VP_N, vpi_sc, vpi_bol, &tot);
   vp_expect_fatal = (VP_NODEFAULT && VP_N > 0 && rr == VP_DEFAULT_RULE);
+#if VP_INTERIOR
+  { vp_state s; vp_init(&s);
+    for (int i = 0; i < VP_N; i++) vp_step(&s, i == 0, vpi_in[i], vpi_sc, vpi_bol);
+    VP_ASSUME(!vp_alive(&s)); }      /* the match attempt has jammed at the last byte at the latest */
+#endif
 
   VP_INIT_SCANNER();
 #if defined(VP_SOURCE_BYTES)
